@@ -261,6 +261,13 @@ def sch_done(ctx: Ctx) -> RuleResult:
         if not h.removes_done:
             r.violate(f"{h.fn.short}: finished nodes are not removed from the graph", h.fn.loc(),
                       "the helper waits for futures but never removes the finished nodes: successors are never released")
+        early = [x for x in h.notes if x.startswith("EARLY-EXIT")]
+        r.ob(not early, {"helper": h.fn.short, "every finished future is pruned (the loop over the done set is not left early)": not early})
+        if early:
+            r.violate(f"{h.fn.short}: the loop over the finished futures is left early", h.fn.loc(h.done_loop or None),
+                      "the wait primitive took all the futures it reports out of the running set; those the loop does not reach are never "
+                      "checked and never pruned from the graph: their successors stay blocked and the scheduler spins with nothing in flight",
+                      early)
         reb = [x for x in h.notes if x.startswith("PENDING-REBOUND")]
         r.ob(not reb, {"helper": h.fn.short, "pending set is the one returned by the wait primitive": not reb})
         if reb:
@@ -363,6 +370,38 @@ def sch_prune(ctx: Ctx) -> RuleResult:
     if init is not None:
         init_i = pre.index(init)
     if prune_i is None:
+        # recognised weaker form: a loop that removes a provided id only under a condition on the graph's structure
+        from .val import reach_conditions
+
+        for i, n in touched:
+            if n.func.attr in ("remove_node", "remove_root_node") and n.args:
+                lp = next((l for l in own_walk(pre[i]) if isinstance(l, ast.For) and any(x is n for x in ast.walk(l))), None)
+                st = next((b for b in own_walk(pre[i]) if isinstance(b, ast.Expr) and b.value is n), None)
+                if lp is None or st is None:
+                    continue
+                conds = reach_conditions(lp, st) or []
+                member = [c_ for c_, pol_ in conds if pol_ and isinstance(c_, ast.Compare) and isinstance(c_.ops[0], ast.In) and dotted(c_.comparators[0]) == res]
+                struct = [c_ for c_, pol_ in conds if any(isinstance(x, ast.Attribute) and x.attr in ("in_degree", "out_degree", "predecessors", "successors",
+                                                                                                        "root_nodes", "leaf_nodes", "pred", "succ")
+                                                         for x in ast.walk(c_))]
+                if member and struct:
+                    r.ob(False, {"prune": norm_src(pre[i])[:120]})
+                    r.violate(f"{m.fn.short}: an id that already has a result is pruned only when {norm_src(struct[0])}", m.fn.loc(n),
+                              "the provided results are not closed under ancestors (a cache written after a deactivated node, a setup node "
+                              "computed by a root_nodes selection): a node with a provided result and an unfinished predecessor stays in the "
+                              "graph and is executed again", norm_src(struct[0]))
+                    return r
+        # ... or walks down from the roots with the scheduler's own primitive (only roots, and what they release, are candidates)
+        for i, n in touched:
+            if n.func.attr in ("remove_root_node", "remove_any_root_node") or any(
+                    isinstance(x, ast.Attribute) and x.attr == "root_nodes" and dotted(x.value) == m.G for x in ast.walk(pre[i])):
+                mem = any(isinstance(c_, ast.Compare) and isinstance(c_.ops[0], ast.In) and dotted(c_.comparators[0]) == res for st_ in pre for c_ in ast.walk(st_))
+                if mem:
+                    r.ob(False, {"prune": norm_src(pre[i])[:120]})
+                    r.violate(f"{m.fn.short}: the ids that already have a result are pruned by walking down from the roots", m.fn.loc(n),
+                              "a provided id below a node that has no result (a cache written after a deactivated node, a setup node computed "
+                              "by a root_nodes selection) is never reached: it stays in the graph and is executed again", norm_src(pre[i])[:120])
+                    return r
         if touched:
             raise Undecided("a statement mutates the graph before the loop but is not the recognised prune form: "
                             + norm_src(touched[0][1]))
@@ -637,6 +676,14 @@ def sch_seq_post(ctx: Ctx) -> RuleResult:
                           "a sequential node handed to the pool must be waited for before anything else is started",
                           p.describe())
     r.require(nd > 0, "no pooled dispatch path")
+    # the drain is a wait that returns only when the sequential node has finished: the wait primitive has no timeout
+    for q, h in m.helpers.items():
+        tm = [x for x in h.notes if x.startswith("TIMEOUT")]
+        r.ob(not tm, {"helper": h.fn.short, "wait without timeout": not tm})
+        if tm:
+            r.violate(f"{h.fn.short}: the wait primitive is given a timeout ({tm[0][9:]})", h.fn.loc(h.wait_call),
+                      "the wait issued once after a sequential node was handed to the pool returns when the timeout expires, with that "
+                      "node still running: the loop goes on and starts other nodes alongside it", tm)
     return r
 
 
